@@ -169,6 +169,14 @@ def under_completed_contract(chk):
     except KeyError:
         return None  # the helper does not exist on this tree: track_flip is then judged against the statement directly
     chk.function(q, "verified (loop invariant over the ancestor chain)")
+    import ast as _ast
+    mutable = [p_ for p_, d_ in fi.defaults.items() if isinstance(d_, (_ast.Dict, _ast.List, _ast.Set, _ast.DictComp, _ast.ListComp, _ast.SetComp))
+               or (isinstance(d_, _ast.Call) and isinstance(d_.func, _ast.Name) and d_.func.id in ("dict", "list", "set", "defaultdict"))]
+    chk.prove("C17.state.under_completed_context.no_hidden_state", [], z3.BoolVal(not mutable),
+              desc="the answer is a function of the operation and of the operations map given to THIS call: the helper keeps no state between calls in a mutable default argument (the statuses it reads change between calls and invocations)"
+                   + (f"; mutable default(s): {mutable}" if mutable else ""))
+    if mutable:
+        return None
     st = St()
     m = ops_functions(P)
     st.assume(ba_axiom(P, m))
